@@ -423,8 +423,9 @@ def _run_one(arg):
     return case, res
 
 
-def run_batch(modname, cases, deadline=None, max_failures=20):
-    """Run cases on the worker pool.  Returns (tally, failures, harness_errors)."""
+def run_batch(modname, cases, deadline=None, max_failures=20, known=None, known_hits=None):
+    """Run cases on the worker pool.  Returns (tally, failures, harness_errors).  Failures that `known`
+    recognises as listed findings are counted in known_hits and do not end the batch."""
     tally = Tally()
     failures = []
     herrs = []
@@ -439,6 +440,10 @@ def run_batch(modname, cases, deadline=None, max_failures=20):
                 continue
             tally.add(case, res)
             if not res["ok"]:
+                kid = known(case, res) if known else None
+                if kid:
+                    known_hits[kid] = known_hits.get(kid, 0) + 1
+                    continue
                 failures.append((case, res))
                 if len(failures) >= max_failures:
                     break
